@@ -131,6 +131,15 @@ fn grid_shape(rng: &mut Rng) -> Vec<usize> {
     (0..d).map(|_| rng.range(1, 4)).collect()
 }
 
+/// numeric option values at and beyond the bounds of the integer types involved
+fn boundary_num(rng: &mut Rng) -> String {
+    (*rng.pick(&[
+        "0", "1", "2", "2147483647", "2147483648", "4294967295", "4294967296", "9223372036854775807", "9223372036854775808",
+        "18446744073709551614", "18446744073709551615", "18446744073709551616",
+    ]))
+    .to_string()
+}
+
 fn precision_arg(rng: &mut Rng) -> String {
     (*rng.pick(&["0", "1", "6", "17", "18", "100", "65535", "65536", "65537", "4294967296", "18446744073709551615", "18446744073709551616", "-1"]))
         .to_string()
@@ -201,10 +210,10 @@ impl Prop for C17 {
             }
             3..=5 => {
                 case.family = "view_options".into();
-                let shape = if rng.chance(1, 3) {
-                    (0..rng.range(1, 4)).map(|_| rng.range(1, 2)).collect()
-                } else {
-                    grid_shape(&mut rng)
+                let shape: Vec<usize> = match rng.below(4) {
+                    0 => (0..rng.range(1, 4)).map(|_| rng.range(1, 2)).collect(),
+                    1 => (0..rng.range(4, 6)).map(|_| rng.range(1, 3)).collect(),
+                    _ => grid_shape(&mut rng),
                 };
                 let d = shape.len();
                 let spec = small_spec(&mut rng, shape.clone());
@@ -212,7 +221,15 @@ impl Prop for C17 {
                 if rng.chance(1, 2) {
                     let flag = if rng.chance(1, 2) { "-m" } else { "-M" };
                     let k = rng.range(1, d + 1);
-                    let axes: Vec<String> = (0..k).map(|_| rng.range(0, d + 1).to_string()).collect();
+                    let mut axes: Vec<String> = (0..k)
+                        .map(|_| if rng.chance(1, 8) { boundary_num(&mut rng) } else { rng.range(0, d + 1).to_string() })
+                        .collect();
+                    if rng.chance(1, 4) && !axes.is_empty() {
+                        // duplicated axes, adjacent or not
+                        let a = rng.pick(&axes).clone();
+                        let at = rng.range(0, axes.len());
+                        axes.insert(at, a);
+                    }
                     case.args.push(flag.into());
                     case.args.push(axes.join(","));
                 }
@@ -222,10 +239,10 @@ impl Prop for C17 {
                     let t: Vec<String> = (0..k)
                         .map(|i| {
                             let l = shape.get(i).copied().unwrap_or(2);
-                            match rng.below(5) {
+                            match rng.below(6) {
                                 0 => "0".to_string(),
                                 1 => (l + 1).to_string(),
-                                2 => "4294967296".to_string(),
+                                2 | 3 => boundary_num(&mut rng),
                                 _ => rng.range(0, l).to_string(),
                             }
                         })
@@ -298,9 +315,16 @@ impl Prop for C17 {
                         let repl = shape_txt.replace('/', ", ");
                         img.splice(a + 1..b, format!("{repl},").bytes());
                     }
-                    if rng.chance(1, 3) {
-                        img[8] = 0xff;
-                        img[9] = 0xff;
+                    if rng.chance(1, 2) {
+                        // header length field: zero, tiny, off by one, maximal
+                        let real = u16::from_le_bytes([img[8], img[9]]);
+                        let v: u16 = *rng.pick(&[0u16, 1, 2, real.wrapping_sub(1), real.wrapping_add(1), 0xffff, 0x8000]);
+                        if img[6] == 1 {
+                            img[8..10].copy_from_slice(&v.to_le_bytes());
+                        } else {
+                            let w: u32 = if rng.chance(1, 2) { v as u32 } else { *rng.pick(&[0u32, 0xffff_ffff, 0x8000_0000]) };
+                            img[8..12].copy_from_slice(&w.to_le_bytes());
+                        }
                     }
                     img
                 };
@@ -444,7 +468,12 @@ impl Prop for C17 {
                     if !case.args.iter().any(|a| a == "--project-shape" || a == "--strict") {
                         case.args.push(flag.into());
                         let k = rng.range(1, 3);
-                        case.args.push((0..k).map(|_| (*rng.pick(&["0", "1", "2", "3", "100", "4294967296"])).to_string()).collect::<Vec<_>>().join(","));
+                        case.args.push(
+                            (0..k)
+                                .map(|_| if rng.chance(1, 3) { boundary_num(&mut rng) } else { (*rng.pick(&["0", "1", "2", "3", "100"])).to_string() })
+                                .collect::<Vec<_>>()
+                                .join(","),
+                        );
                     }
                 }
                 if rng.chance(1, 4) {
@@ -453,7 +482,7 @@ impl Prop for C17 {
                 }
                 if rng.chance(1, 3) {
                     case.args.push("-t".into());
-                    case.args.push((*rng.pick(&["1", "2", "64", "0", "-1"])).to_string());
+                    case.args.push((*rng.pick(&["1", "2", "64", "0", "-1", "18446744073709551616"])).to_string());
                 }
                 deliver(&mut rng, &mut case, bytes);
             }
